@@ -67,6 +67,13 @@ func check(r *mon.Rec, stream string, idx int, p *dhcpv4.DHCPv4, e *ref4.P4) {
 		r.Violate("C01:mismatch:"+diffField(e, g), "decoded packet differs from the value encoded: "+diffMsg(e, g), rp)
 		return
 	}
+	// the decoded packet is the caller's: write all over it.  What a LATER decode returns must not depend on that (shared
+	// tables of small values, interned addresses); no process-wide value may change either.
+	mon.Scribble(q)
+	if ch := mon.CanariesChanged(); len(ch) > 0 {
+		r.Violate("C01:result-aliases-global", fmt.Sprintf("writing into the decoded packet changed process-wide values %v", ch), rp)
+		return
+	}
 	// Options-only round trip (Options.ToBytes -> Options.FromBytes).
 	ob := p.Options.ToBytes()
 	o2 := dhcpv4.Options{}
